@@ -153,7 +153,23 @@ def ctrace(tr: list[tuple]) -> str:
 # ------------------------------------------------------- python value <-> token
 
 
+# Falsy layer values: the lookup must answer with them (presence decides), not fall through.
+T_NIL, T_FALSE, T_ZERO, T_ESTR, T_ELIST, T_EDICT = ("D", 900), ("D", 901), ("I", 0), ("D", 903), ("D", 904), ("D", 905)
+FALSY = [T_NIL, T_FALSE, T_ZERO, T_ESTR, T_ELIST, T_EDICT]
+FALSY_NAME = {T_NIL: "nil", T_FALSE: "false", T_ZERO: "0", T_ESTR: "''", T_ELIST: "[]", T_EDICT: "{}"}
+
+
 def pyval(v: tuple) -> Any:
+    if v == T_NIL:
+        return None
+    if v == T_FALSE:
+        return False
+    if v == T_ESTR:
+        return ""
+    if v == T_ELIST:
+        return []
+    if v == T_EDICT:
+        return {}
     if v[0] == "D":
         return f"v{v[1]}"
     if v[0] == "I":
@@ -161,8 +177,27 @@ def pyval(v: tuple) -> Any:
     raise ValueError(v)
 
 
+def lit(v: tuple) -> str:
+    """The Liquid expression that evaluates to the value ([] and {} have no
+    literal: they are read from the render arguments e_list / e_dict)."""
+    if v in FALSY:
+        return {T_NIL: "nil", T_FALSE: "false", T_ZERO: "0", T_ESTR: "''", T_ELIST: "e_list", T_EDICT: "e_dict"}[v]
+    x = pyval(v)
+    return f"'{x}'" if isinstance(x, str) else str(x)
+
+
 def token_of(x: Any) -> tuple:
     """A Python object observed in a context -> model value."""
+    if x is None:
+        return T_NIL
+    if x is False:
+        return T_FALSE
+    if type(x) is str and x == "":
+        return T_ESTR
+    if type(x) is list and not x:
+        return T_ELIST
+    if type(x) is dict and not x:
+        return T_EDICT
     if isinstance(x, bool):
         return ("D", 999)
     if isinstance(x, int):
@@ -195,6 +230,35 @@ def token_of_text(s: str) -> tuple | None:
     return ("D", 998)
 
 
+def probe_filter(v: Any) -> str:
+    """Registered as the filter `probe` (env.filters is public API): prints what the
+    lookup returned exactly, so that nil, '', [] and undefined are told apart."""
+    from liquid2.undefined import is_undefined
+    if is_undefined(v):
+        return "U"
+    tk = token_of(v)
+    if tk[0] == "I":
+        return f"i{tk[1]}"
+    if tk[0] == "N":
+        return "NOW"
+    if tk[0] == "T":
+        return "TODAY"
+    return f"d{tk[1]}"
+
+
+def token_of_probe(s: str) -> tuple | None:
+    if s == "U":
+        return None
+    if s == "NOW":
+        return ("N",)
+    if s == "TODAY":
+        return ("T",)
+    m = re.fullmatch(r"([id])(-?\d+)", s)
+    if not m:
+        return ("D", 998)
+    return ("I", int(m.group(2))) if m.group(1) == "i" else ("D", int(m.group(2)))
+
+
 # ------------------------------------------------------------------ loader
 
 
@@ -217,40 +281,56 @@ def make_loader(sources: dict[str, str], matter: dict[str, Any]):
 
 
 class Prog:
-    def __init__(self) -> None:
+    def __init__(self, probe: bool = False) -> None:
         self.partials: dict[str, str] = {}
         self.n_partials = 0
+        self.probe = probe
+        self.needs: set[str] = set()  # extra render arguments the source refers to
+
+    def out_expr(self, name: str) -> str:
+        return name + (" | probe" if self.probe else "")
+
+    def lit(self, v: tuple) -> str:
+        if v == T_ELIST:
+            self.needs.add("e_list")
+        if v == T_EDICT:
+            self.needs.add("e_dict")
+        return lit(v)
 
     def src(self, nodes: list[tuple]) -> str:
         out = []
         for n in nodes:
             t = n[0]
             if t == "out":
-                out.append("{{ " + n[1] + " }}" + SEP)
+                out.append("{{ " + self.out_expr(n[1]) + " }}" + SEP)
             elif t == "assign":
-                out.append("{% assign " + n[1] + " = '" + pyval(n[2]) + "' %}")
+                out.append("{% assign " + n[1] + " = " + self.lit(n[2]) + " %}")
             elif t == "incr":
                 out.append("{% increment " + n[1] + " %}" + SEP)
             elif t == "decr":
                 out.append("{% decrement " + n[1] + " %}" + SEP)
             elif t == "with":
-                args = ", ".join(f"{k}: '{pyval(v)}'" for k, v in n[1])
+                args = ", ".join(f"{k}: {self.lit(v)}" for k, v in n[1])
                 out.append("{% with " + args + " %}" + self.src(n[2]) + "{% endwith %}")
             elif t == "for":
                 out.append("{% for " + n[1] + " in (7..7) %}" + self.src(n[2]) + "{% endfor %}")
+            elif t == "fori":
+                # the loop item is a caller-supplied value: items_ = [value]
+                self.needs.add("items_")
+                out.append("{% for " + n[1] + " in items_ %}" + self.src(n[3]) + "{% endfor %}")
             elif t == "capture":
                 out.append("{% capture c %}" + self.src(n[1]) + "{% endcapture %}{{ c }}")
             elif t == "include":
                 self.n_partials += 1
                 name = f"p{self.n_partials}"
                 self.partials[name] = self.src(n[2])
-                args = "".join(f", {k}: '{pyval(v)}'" for k, v in n[1])
+                args = "".join(f", {k}: {self.lit(v)}" for k, v in n[1])
                 out.append("{% include '" + name + "'" + args + " %}")
             elif t == "lambda":
                 out.append("{{ (7..9) | find: " + n[1] + " => " + n[1] + " == 8 }}" + SEP)
             elif t == "liquid":
                 # {% liquid %} line statements: assign + echo
-                out.append("{% liquid assign " + n[1] + " = '" + pyval(n[2]) + "'\n echo " + n[1] + " %}" + SEP)
+                out.append("{% liquid assign " + n[1] + " = " + self.lit(n[2]) + "\n echo " + self.out_expr(n[1]) + " %}" + SEP)
             else:
                 raise ValueError(n)
         return "".join(out)
@@ -269,6 +349,8 @@ class Prog:
                 out.append(("extend", list(n[1]), self.ops(n[2])))
             elif t == "for":
                 out.append(("extend", [("forloop", ("D", 100)), (n[1], ("I", 7))], self.ops(n[2])))
+            elif t == "fori":
+                out.append(("extend", [("forloop", ("D", 100)), (n[1], n[2])], self.ops(n[3])))
             elif t == "capture":
                 out += self.ops(n[1]) + [("assign", "c", ("D", 50))]
             elif t == "include":
@@ -290,6 +372,8 @@ class Prog:
                 out.append(("C",))
             elif t in ("with", "for", "include"):
                 out += self.kinds(n[2])
+            elif t == "fori":
+                out += self.kinds(n[3])
             elif t == "capture":
                 out += self.kinds(n[1])
             elif t == "lambda":
@@ -299,81 +383,96 @@ class Prog:
         return out
 
 
-def api_world(S: str, name: str) -> dict[str, list]:
-    return {"eg": [(name, ("D", 6))] if "E" in S else [],
-            "tg": [(name, ("D", 5))] if "T" in S else [],
-            "m": [(name, ("D", 4))] if "M" in S else [],
-            "ra": [(name, ("D", 3))] if "R" in S else []}
+def layer_vals(over: dict[str, tuple] | None = None) -> dict[str, tuple]:
+    v = {k: ("D", n) for k, n in TOK.items()}
+    v.update(over or {})
+    return v
+
+
+def api_world(S: str, name: str, vals: dict[str, tuple] | None = None) -> dict[str, list]:
+    v = layer_vals(vals)
+    return {"eg": [(name, v["E"])] if "E" in S else [],
+            "tg": [(name, v["T"])] if "T" in S else [],
+            "m": [(name, v["M"])] if "M" in S else [],
+            "ra": [(name, v["R"])] if "R" in S else []}
 
 
 SHAPES = ["plain", "for", "capture", "assign_in_block", "include", "nested", "lambda", "liquid", "render", "render2", "render_with"]
 
 
-def api_program(S: str, name: str, shape: str) -> tuple[list[tuple], list[tuple]]:
+def api_program(S: str, name: str, shape: str, vals: dict[str, tuple] | None = None) -> tuple[list[tuple], list[tuple]]:
     """(pre, body): pre = counter / locals set-up; body = the lookups."""
+    v = layer_vals(vals)
     pre: list[tuple] = []
     if "C" in S:
         pre.append(("incr", name))
+        if vals and "_counter_zero" in vals:
+            pre.append(("decr", name))  # the counter layer then holds 0
     if "L" in S and shape not in ("assign_in_block", "liquid"):
-        pre.append(("assign", name, ("D", 2)))
+        pre.append(("assign", name, v["L"]))
     B = "B" in S
     out = ("out", name)
-    bind = [(name, ("D", 1))] if B else [("w_", ("D", 90))]
+    bind = [(name, v["B"])] if B else [("w_", ("D", 90))]
     if shape == "plain":
         body = [("with", bind, [out])] if B else [out]
     elif shape == "for":
-        body = [("for", name if B else "q", [out])]
+        if B and vals and "B" in vals:
+            body = [("fori", name, v["B"], [out])]  # the block binding is a caller-supplied loop item
+        else:
+            body = [("for", name if B else "q", [out])]
     elif shape == "capture":
         body = [("capture", [("with", bind, [out])] if B else [out])]
     elif shape == "assign_in_block":
-        inner = ([("assign", name, ("D", 2))] if "L" in S else []) + [out]
+        inner = ([("assign", name, v["L"])] if "L" in S else []) + [out]
         body = [("with", bind, inner)]
     elif shape == "include":
-        body = [("include", [(name, ("D", 1))] if B else [], [out])]
+        body = [("include", [(name, v["B"])] if B else [], [out])]
     elif shape == "nested":
         body = [("with", bind, [("for", "q", [out, ("include", [], [out])])])]
     elif shape == "lambda":
         body = [("lambda", "z"), ("with", bind, [("lambda", name), out])] if B else [("lambda", name), out]
     elif shape == "liquid":
-        inner = ([("liquid", name, ("D", 2))] if "L" in S else []) + [out]
+        inner = ([("liquid", name, v["L"])] if "L" in S else []) + [out]
         body = [("with", bind, inner)] if B else inner
     else:
         raise ValueError(shape)
     return pre, body + [out]
 
 
-def run_api(S: str, shape: str, path: int, none_for_empty: bool) -> dict[str, Any]:
+def run_api(S: str, shape: str, path: int, none_for_empty: bool,
+            vals: dict[str, tuple] | None = None, probe: bool = False) -> dict[str, Any]:
     """Build everything through the public API, render, return decoded outputs."""
     from liquid2 import Environment
 
     name = ("today" if (len(S) % 2) else "now") if "U" in S else "x"
-    w = api_world(S, name)
+    w = api_world(S, name, vals)
     py = {k: {n: pyval(v) for n, v in items} for k, items in w.items()}
+    lv = layer_vals(vals)
 
     def opt(d: dict) -> Any:
         return d if d or not none_for_empty else None
 
-    P = Prog()
+    P = Prog(probe)
     if shape in ("render", "render2", "render_with"):
-        pre, _ = api_program(S, name, "plain")
-        ns = [(name, ("D", 1))] if "B" in S else []
-        args = "".join(f", {k}: '{pyval(v)}'" for k, v in ns)
-        P.partials["r"] = "{{ " + name + " }}" + SEP
+        pre, _ = api_program(S, name, "plain", vals)
+        ns = [(name, lv["B"])] if "B" in S else []
+        args = "".join(f", {k}: {P.lit(v)}" for k, v in ns)
+        P.partials["r"] = "{{ " + P.out_expr(name) + " }}" + SEP
         if shape == "render":
-            src = P.src(pre) + "{% render 'r'" + args + " %}" + "{{ " + name + " }}" + SEP
+            src = P.src(pre) + "{% render 'r'" + args + " %}" + "{{ " + P.out_expr(name) + " }}" + SEP
         elif shape == "render_with":
             # the binding is written into the namespace AFTER copy() has chained it (render_tag.py)
-            bound = (" with 'v1' as " + name) if ns else ""
-            src = P.src(pre) + "{% render 'r'" + bound + " %}" + "{{ " + name + " }}" + SEP
+            bound = (" with " + P.lit(lv["B"]) + " as " + name) if ns else ""
+            src = P.src(pre) + "{% render 'r'" + bound + " %}" + "{{ " + P.out_expr(name) + " }}" + SEP
         else:
             # a render inside a rendered partial (inside a block of that partial)
-            src = P.src(pre) + "{% render 'r1'" + args + " %}" + "{{ " + name + " }}" + SEP
+            src = P.src(pre) + "{% render 'r1'" + args + " %}" + "{{ " + P.out_expr(name) + " }}" + SEP
             P.partials["r1"] = "{% with w_: 'v90' %}{% render 'r' %}{% endwith %}"
         # the partials' own matter must be invisible
         part_matter = {"r": {name: "v8"}, "r1": {name: "v8"}}
         nodes = None
     else:
-        pre, body = api_program(S, name, shape)
+        pre, body = api_program(S, name, shape, vals)
         nodes = pre + body
         src = P.src(nodes)
         part_matter = {k: {name: "v8"} for k in P.partials}
@@ -381,10 +480,19 @@ def run_api(S: str, shape: str, path: int, none_for_empty: bool) -> dict[str, An
     sources["main"] = src
     matter = dict(part_matter)
     eg, tg, mm, ra = (copy.deepcopy(py[k]) for k in ("eg", "tg", "m", "ra"))
+    # helpers the source refers to (not part of the modelled world: other names)
+    if "e_list" in P.needs:
+        ra["e_list"] = []
+    if "e_dict" in P.needs:
+        ra["e_dict"] = {}
+    if "items_" in P.needs:
+        ra["items_"] = [pyval(lv["B"])]
     snap = copy.deepcopy((eg, tg, mm, ra))
     if path != 0:
         matter["main"] = opt(mm)
     env = Environment(loader=make_loader(sources, matter), globals=opt(eg))
+    if probe:
+        env.filters["probe"] = probe_filter
     if path == 0:
         t = env.from_string(src, globals=opt(tg), overlay_data=opt(mm))
         text = t.render(**ra)
@@ -410,94 +518,128 @@ def run_api(S: str, shape: str, path: int, none_for_empty: bool) -> dict[str, An
             "partials": dict(P.partials), "problems": problems, "ns": ns if shape in ("render", "render2", "render_with") else None}
 
 
-def spec_value(S: str, visible: str) -> tuple | None:
+def spec_value(S: str, visible: str, vals: dict[str, tuple] | None = None) -> tuple | None:
     """The property's own order, evaluated directly (oracle)."""
+    lv = layer_vals(vals)
     for layer in LAYERS:
         if layer in S and layer in visible:
             if layer in TOK:
-                return ("D", TOK[layer])
+                return lv[layer]
             if layer == "U":
                 return ("U",)
-            return ("I", 1)
+            return ("I", 0) if vals and "_counter_zero" in vals else ("I", 1)
     return None
 
 
 def part_a(chk: C.Check, thorough: bool) -> list[dict[str, Any]]:
     items: list[dict[str, Any]] = []
-    stats = chk.coverage.setdefault("partA", {"renders": 0, "lookups": 0, "winner": {}, "_nontrivial": set()})
-    idx = 0
+    stats = chk.coverage.setdefault("partA", {"renders": 0, "lookups": 0, "winner": {}, "_nontrivial": set(),
+                                              "falsy_renders": 0, "falsy_value_won": {}})
+
+    def one(S: str, shape: str, path: int, nfe: bool, vals: dict[str, tuple] | None = None, probe: bool = False) -> None:
+        dec = token_of_probe if probe else token_of_text
+        r = run_api(S, shape, path, none_for_empty=nfe, vals=vals, probe=probe)
+        stats["renders"] += 1
+        if vals:
+            stats["falsy_renders"] += 1
+        if len(S) >= 2:
+            stats["_nontrivial"].add((S, shape, repr(vals)))
+        name = r["name"]
+        replay = {"layers": S, "shape": shape, "api_path": ["from_string", "get_template", "get_template_async+render_async"][path],
+                  "source": r["src"], "partials": r["partials"], "output": r["segs"]}
+        if vals:
+            replay["layer_values"] = {k: FALSY_NAME.get(v, str(v)) for k, v in vals.items()}
+        for p in r["problems"]:
+            chk.finding("api:" + p[:40], p, replay)
+        if shape in ("render", "render2", "render_with"):
+            segs = r["segs"]
+            ok_shape = len(segs) == (3 if "C" not in S else 4) and segs[-1] == ""
+            if not ok_shape:
+                chk.finding("api:render-shape", "unexpected output shape", replay)
+                return
+            inner, outer = dec(segs[-3]), dec(segs[-2])
+            # oracle: inside the partial the parent's locals and counters are invisible
+            want_in = spec_value(S, "RMTEU" if shape == "render2" else "BRMTEU", vals)
+            want_out = spec_value(S, "LRMTEUC", vals)
+            for got, want, where in ((inner, want_in, "inside {% render %}"), (outer, want_out, "after {% render %}")):
+                stats["lookups"] += 1
+                g = ("U",) if got in (("N",), ("T",)) else got
+                if g != want:
+                    chk.finding("precedence:" + where, f"layers {S}{' values ' + str(replay['layer_values']) if vals else ''}: {name} resolved to {got}, the documented order gives {want} {where}", replay)
+                elif want in FALSY:
+                    stats["falsy_value_won"][FALSY_NAME[want]] = stats["falsy_value_won"].get(FALSY_NAME[want], 0) + 1
+            case = (f"{'chk_copy2' if shape == 'render2' else 'chk_copy'} {cworld(r['world'])} {cops(r['prog'].ops(r['pre']))} {cdict(r['ns'])} "
+                    f"{ck(name)} {coval(inner)} {coval(outer)}")
+            items.append({"case": case, "model": f"render 30 {cworld(r['world'])} {cops(r['prog'].ops(r['pre']))}",
+                          "replay": replay})
+            return
+        P: Prog = r["prog"]
+        kinds = P.kinds(r["nodes"])
+        segs = r["segs"]
+        if len(segs) != len(kinds) + 1 or segs[-1] != "":
+            chk.finding("api:output-shape", f"expected {len(kinds)} output segments", replay)
+            return
+        trace: list[tuple] = []
+        # expected trace in model order = lookups / counters in execution order,
+        # which is the order of the output segments
+        for kind, seg in zip(kinds, segs):
+            if kind[0] == "L":
+                trace.append(("L", kind[1], dec(seg)))
+            elif kind[0] == "C":
+                trace.append(("C", int(seg) if re.fullmatch(r"-?\d+", seg) else 12345))
+        # direct oracle on the lookups of the multiply defined name:
+        # first lookup sees every layer, the last one (after all blocks) no block scope
+        looks = [x for x in trace if x[0] == "L" and x[1] == name]
+        stats["lookups"] += len(looks)
+        if looks:
+            first, last = looks[0][2], looks[-1][2]
+            want_first = spec_value(S, LAYERS, vals)
+            if shape == "for" and "B" in S and not (vals and "B" in vals):
+                want_first = ("I", 7)  # the block binding is the loop item
+            for got, want, where in ((first, want_first, "in the block"),
+                                     (last, spec_value(S, "LRMTEUC", vals), "after the block")):
+                g = ("U",) if got in (("N",), ("T",)) else got
+                if g != want:
+                    chk.finding("precedence:" + where, f"layers {S}{' values ' + str(replay['layer_values']) if vals else ''}, shape {shape}: {name} resolved to {got}, the documented order gives {want} {where}", replay)
+                elif want in FALSY:
+                    stats["falsy_value_won"][FALSY_NAME[want]] = stats["falsy_value_won"].get(FALSY_NAME[want], 0) + 1
+            win = next((l for l in LAYERS if l in S), "-")
+            stats["winner"][win] = stats["winner"].get(win, 0) + 1
+        replay["decoded_trace"] = trace
+        ops = P.ops(r["nodes"])
+        case = f"chk {cworld(r['world'])} {cops(ops)} {ctrace(trace)}"
+        items.append({"case": case, "model": f"observe (render 30 {cworld(r['world'])} {cops(ops)})",
+                      "replay": replay})
+
     for bits in range(256):
         S = "".join(l for i, l in enumerate(LAYERS) if bits >> i & 1)
         for si, shape in enumerate(SHAPES):
             paths = (0, 1, 2) if thorough else ((bits + si) % 3,)
             for path in paths:
-                idx += 1
-                r = run_api(S, shape, path, none_for_empty=bool((bits + si + path) % 2))
-                stats["renders"] += 1
-                if len(S) >= 2:
-                    stats["_nontrivial"].add((S, shape))
-                name = r["name"]
-                replay = {"layers": S, "shape": shape, "api_path": ["from_string", "get_template", "get_template_async+render_async"][path],
-                          "source": r["src"], "partials": r["partials"], "output": r["segs"]}
-                for p in r["problems"]:
-                    chk.finding("api:" + p[:40], p, replay)
-                if shape in ("render", "render2", "render_with"):
-                    segs = r["segs"]
-                    ok_shape = len(segs) == (3 if "C" not in S else 4) and segs[-1] == ""
-                    if not ok_shape:
-                        chk.finding("api:render-shape", "unexpected output shape", replay)
-                        continue
-                    inner, outer = token_of_text(segs[-3]), token_of_text(segs[-2])
-                    # oracle: inside the partial the parent's locals and counters are invisible
-                    want_in = spec_value(S, "RMTEU" if shape == "render2" else "BRMTEU")
-                    want_out = spec_value(S, "LRMTEUC")
-                    for got, want, where in ((inner, want_in, "inside {% render %}"), (outer, want_out, "after {% render %}")):
-                        stats["lookups"] += 1
-                        g = ("U",) if got in (("N",), ("T",)) else got
-                        if g != want:
-                            chk.finding("precedence:" + where, f"layers {S}: {name} resolved to {got}, the documented order gives {want} {where}", replay)
-                    case = (f"{'chk_copy2' if shape == 'render2' else 'chk_copy'} {cworld(r['world'])} {cops(r['prog'].ops(r['pre']))} {cdict(r['ns'])} "
-                            f"{ck(name)} {coval(inner)} {coval(outer)}")
-                    items.append({"case": case, "model": f"render 30 {cworld(r['world'])} {cops(r['prog'].ops(r['pre']))}",
-                                  "replay": replay})
-                    continue
-                P: Prog = r["prog"]
-                kinds = P.kinds(r["nodes"])
-                segs = r["segs"]
-                if len(segs) != len(kinds) + 1 or segs[-1] != "":
-                    chk.finding("api:output-shape", f"expected {len(kinds)} output segments", replay)
-                    continue
-                trace: list[tuple] = []
-                ki = 0
-                # expected trace in model order = lookups / counters in execution order,
-                # which is the order of the output segments
-                for kind, seg in zip(kinds, segs):
-                    if kind[0] == "L":
-                        trace.append(("L", kind[1], token_of_text(seg)))
-                    elif kind[0] == "C":
-                        trace.append(("C", int(seg) if re.fullmatch(r"-?\d+", seg) else 12345))
-                    ki += 1
-                # direct oracle on the lookups of the multiply defined name:
-                # first lookup sees every layer, the last one (after all blocks) no block scope
-                looks = [t for t in trace if t[0] == "L" and t[1] == name]
-                stats["lookups"] += len(looks)
-                if looks:
-                    first, last = looks[0][2], looks[-1][2]
-                    want_first = spec_value(S, LAYERS)
-                    if shape == "for" and "B" in S:
-                        want_first = ("I", 7)  # the block binding is the loop item
-                    for got, want, where in ((first, want_first, "in the block"),
-                                             (last, spec_value(S, "LRMTEUC"), "after the block")):
-                        g = ("U",) if got in (("N",), ("T",)) else got
-                        if g != want:
-                            chk.finding("precedence:" + where, f"layers {S}, shape {shape}: {name} resolved to {got}, the documented order gives {want} {where}", replay)
-                    win = next((l for l in LAYERS if l in S), "-")
-                    stats["winner"][win] = stats["winner"].get(win, 0) + 1
-                replay["decoded_trace"] = trace
-                ops = P.ops(r["nodes"])
-                case = f"chk {cworld(r['world'])} {cops(ops)} {ctrace(trace)}"
-                items.append({"case": case, "model": f"observe (render 30 {cworld(r['world'])} {cops(ops)})",
-                              "replay": replay})
+                one(S, shape, path, bool((bits + si + path) % 2))
+
+    # Falsy layer values (nil, false, 0, '', [], {}): presence decides, not truthiness.
+    # Every subset x every data layer of it (quick: its winning layer) x every falsy value,
+    # shapes in rotation, nil both sync and async.
+    n = 0
+    for bits in range(256):
+        S = "".join(l for i, l in enumerate(LAYERS) if bits >> i & 1)
+        data_layers = [l for l in S if l in TOK]
+        for li, layer in enumerate(data_layers if thorough else data_layers[:1]):
+            for fi, fv in enumerate(FALSY):
+                n += 1
+                shape = SHAPES[n % len(SHAPES)]
+                if thorough:
+                    paths = (0, 1, 2)
+                elif fv == T_NIL:
+                    paths = (n % 2, 2)
+                else:
+                    paths = (n % 3,)
+                for path in paths:
+                    one(S, shape, path, bool((n + path) % 2), vals={layer: fv}, probe=True)
+    # the counter layer holding 0
+    for path in (0, 2):
+        one("C", "plain", path, False, vals={"_counter_zero": T_ZERO}, probe=True)
     return items
 
 
@@ -602,6 +744,11 @@ def c_observation(res: dict[str, Any]) -> str:
             f"{C.clist((cdict(d) for d in res['caller']), '(dict N)')})")
 
 
+def fz(r, tok: tuple) -> tuple:
+    """Every fifth generated value is one of the falsy ones."""
+    return r.choice(FALSY) if r.random() < 0.2 else tok
+
+
 def gen_ops(r, depth: int, n: int, raw: bool, names: list[str]) -> list[tuple]:
     out: list[tuple] = []
     for _ in range(n):
@@ -610,7 +757,7 @@ def gen_ops(r, depth: int, n: int, raw: bool, names: list[str]) -> list[tuple]:
         if x < 0.38:
             out.append(("lookup", k))
         elif x < 0.55:
-            out.append(("assign", k, ("D", r.randint(10, 19)) if r.random() < 0.8 else ("I", r.randint(-3, 3))))
+            out.append(("assign", k, fz(r, ("D", r.randint(10, 19)) if r.random() < 0.8 else ("I", r.randint(-3, 3)))))
         elif x < 0.65:
             out.append(("incr", k))
         elif x < 0.72:
@@ -626,7 +773,7 @@ def gen_ops(r, depth: int, n: int, raw: bool, names: list[str]) -> list[tuple]:
 
 def gen_ns(r, names: list[str]) -> list[tuple[str, tuple]]:
     ks = r.sample(names, r.randint(0, 2))
-    return [(k, ("D", r.randint(20, 29))) for k in ks]
+    return [(k, fz(r, ("D", r.randint(20, 29)))) for k in ks]
 
 
 def gen_world(r, names: list[str]) -> dict[str, list]:
@@ -635,7 +782,7 @@ def gen_world(r, names: list[str]) -> dict[str, list]:
     for key in ("eg", "tg", "m", "ra"):
         ks = [k for k in names if r.random() < 0.45]
         r.shuffle(ks)
-        w[key] = [(k, ("D", base[key] + i)) for i, k in enumerate(ks)]
+        w[key] = [(k, fz(r, ("D", base[key] + i))) for i, k in enumerate(ks)]
     return w
 
 
@@ -643,6 +790,7 @@ def part_b(chk: C.Check, thorough: bool) -> list[dict[str, Any]]:
     r = C.rng("c10", "B")
     items = []
     cases: list[tuple[dict, int, list[tuple], bool]] = []
+    expect_first: dict[int, tuple] = {}  # case index -> (falsy value the first lookup must return, subset, layer)
     # (1) exhaustive: all 256 subsets, layer contents installed through the real operations
     for bits in range(256):
         S = "".join(l for i, l in enumerate(LAYERS) if bits >> i & 1)
@@ -656,6 +804,30 @@ def part_b(chk: C.Check, thorough: bool) -> list[dict[str, Any]]:
             look = [("lookup", name)]
             inner = [("extend", [(name, ("D", 1))] if "B" in S else [], look + [("extend", [], look)])]
             cases.append((w, 30, ops + inner + look, bool(bits % 2)))
+    # (1b) falsy layer values: every subset x its winning data layer (thorough: every data
+    # layer) x nil / false / 0 / '' / [] / {} - the lookup must answer with the falsy value
+    for bits in range(256):
+        S = "".join(l for i, l in enumerate(LAYERS) if bits >> i & 1)
+        data_layers = [l for l in S if l in TOK]
+        for layer in (data_layers if thorough else data_layers[:1]):
+            for fv in FALSY:
+                name = ("now" if bits % 2 else "today") if "U" in S else "x"
+                lv = layer_vals({layer: fv})
+                w = api_world(S, name, {layer: fv})
+                ops = []
+                if "C" in S:
+                    ops.append(("incr", name))
+                if "L" in S:
+                    ops.append(("assign", name, lv["L"]))
+                look = [("lookup", name)]
+                ops += [("extend", [(name, lv["B"])] if "B" in S else [], look + [("extend", [], look)])] + look
+                # the first lookup sees every layer: the winning data layer's value (the falsy
+                # one when that layer wins)
+                expect_first[len(cases)] = (lv[data_layers[0]], S, layer, fv)
+                cases.append((w, 30, ops, bool(bits % 2)))
+    cases.append((api_world("", "x"), 30, [("incr", "x"), ("decr", "x"), ("lookup", "x"), ("assign", "x", T_NIL), ("lookup", "x"),
+                                           ("extend", [("x", T_FALSE)], [("lookup", "x"), ("extend", [("x", T_ESTR)], [("lookup", "x")])]),
+                                           ("push", [("x", T_ELIST)]), ("lookup", "x"), ("pop",), ("lookup", "x")], False))
     # (2) corpus: boundaries of the depth limit, pops to empty, finally-pop after raw pops
     x1 = [("x", ("D", 1))]
     for lim in (3, 4, 5, 6):
@@ -688,8 +860,16 @@ def part_b(chk: C.Check, thorough: bool) -> list[dict[str, Any]]:
         cases.append((w, lim, ops, bool(i % 2)))
     st = chk.coverage.setdefault("partB", {"sequences": 0, "ops": 0, "depth_errors": 0, "index_errors": 0,
                                            "lookups": 0, "lookups_name_in_two_or_more_layers": 0, "_nontrivial": set()})
-    for w, lim, ops, nfe in cases:
+    for ci, (w, lim, ops, nfe) in enumerate(cases):
         res = run_ctx(w, lim, ops, nfe)
+        if ci in expect_first:
+            want_, S_, layer_, fv = expect_first[ci]
+            got = next((x[2] for x in res["trace"] if x[0] == "L"), "no lookup")
+            st["falsy_sequences"] = st.get("falsy_sequences", 0) + 1
+            if got != want_:
+                chk.finding("precedence:falsy value treated as absent",
+                            f"layers {S_}, layer {layer_} bound to {FALSY_NAME[fv]}: the name resolved to {got}, the documented order gives {want_}, on a real RenderContext",
+                            {"world": w, "ops": ops, "trace": res["trace"], "how": "harness/c10.py run_ctx"})
         st["sequences"] += 1
         st["ops"] += len(ops)
         st["depth_errors"] += res["status"] == 1
@@ -984,7 +1164,7 @@ def pair_sources(filters: list[str], thorough: bool, r) -> list[tuple[str, str, 
     out = []
     for f1 in arr:
         for f2 in arr:
-            ps = CONTAINER_PATHS if thorough else r.sample(CONTAINER_PATHS, 3)
+            ps = CONTAINER_PATHS if thorough else r.sample(CONTAINER_PATHS, 2)
             for p in ps:
                 P = "{R}" + ("." + p if p and not p.startswith("[") else p)
                 out.append((f"pair:{f1}|{f2}", p,
@@ -1142,11 +1322,10 @@ def main(chk: C.Check, build: C.Build) -> None:
         for x in it:
             x["replay"]["part"] = part
     items = items_a + items_b + items_c
-    # common.run_cases numbers the cases with unary nat indexes: keep every call small
     what = "ChainMap.v (render, ctx_copy, exec_list, cm_*) vs public API / RenderContext / ReadOnlyChainMap"
     t0 = time.time()
-    for ci in range(0, len(items), 800):
-        C.correspond(chk, f"c10_{ci // 800}", IMPORTS, DEFS, items[ci:ci + 800], what=what, shard=134)
+    shard = min(1000, max(250, -(-len(items) // (2 * C.JOBS))))
+    C.correspond(chk, "c10", IMPORTS, DEFS, items, what=what, shard=shard)
     walls["coq_cases"] = round(time.time() - t0, 1)
     C.proofs_verdict(chk, proofs_ok)
 
@@ -1164,7 +1343,7 @@ def main(chk: C.Check, build: C.Build) -> None:
                  "B: the same 256 subsets plus seeded random nested operation sequences on a real RenderContext; C: random ReadOnlyChainMap "
                  "histories; D: every registered filter x container path x argument shape, every expression-taking tag, filter pairs, "
                  "failing tails, 3 environments (one root and one failing tail per case in rotation; quick samples argument shapes, "
-                 "paths of non-array filters, one of four template forms, 6 of 24 for-loop option sets and 3 paths per filter pair). "
+                 "paths of non-array filters, one of four template forms, 6 of 24 for-loop option sets and 2 paths per filter pair). "
                  "distinct_nontrivial = distinct A (subset, shape) pairs whose name is bound in >= 2 layers + distinct B sequences in which "
                  "some lookup found its name in >= 2 maps of the real chain (counted on the real objects at lookup time) + distinct D "
                  "(filter, path) pairs in which a caller-owned container object (by identity) was passed to the filter, plus (tag, path) "
